@@ -845,6 +845,31 @@ func runC18(r *hk.Run) {
 		r.Evals++
 	}
 
+	// the element-level encoders (IEI, 2-octet length, contents) against their decoders
+	for i := 0; i < 40; i++ {
+		n := rng.Pick(0, 1, 2, 255, 256, 300)
+		if i >= 6 {
+			n = rng.Intn(40)
+		}
+		l := upc.NewUEPolicySectionManagementList(byte(rng.Intn(256)))
+		l.Len, l.Buffer = uint16(n), rng.Bytes(n)
+		res := upc.NewUEPolicySectionManagementResult(byte(rng.Intn(256)))
+		res.Len, res.Buffer = uint16(n), rng.Bytes(n)
+		o1, e1 := l.MarshalBinary()
+		o2, e2 := res.MarshalBinary()
+		r.Retain("uePolicyContainer.UEPolicySectionManagementList.MarshalBinary", hk.Hex(l.Buffer), o1)
+		r.Retain("uePolicyContainer.UEPolicySectionManagementResult.MarshalBinary", hk.Hex(res.Buffer), o2)
+		var bl upc.UEPolicySectionManagementList
+		var br upc.UEPolicySectionManagementResult
+		if e1 != nil || bl.UnmarshalBinary(bytes.NewBuffer(append([]byte(nil), o1...))) != nil || bl.Iei != l.Iei || bl.Len != l.Len || !bytes.Equal(bl.Buffer, l.Buffer) {
+			c.fail("uePolicyContainer.UEPolicySectionManagementList.MarshalBinary", "roundtrip", hk.Hex(o1), "decode(encode(element)) differs from the element")
+		}
+		if e2 != nil || br.UnmarshalBinary(bytes.NewBuffer(append([]byte(nil), o2...))) != nil || br.Iei != res.Iei || br.Len != res.Len || !bytes.Equal(br.Buffer, res.Buffer) {
+			c.fail("uePolicyContainer.UEPolicySectionManagementResult.MarshalBinary", "roundtrip", hk.Hex(o2), "decode(encode(element)) differs from the element")
+		}
+		r.Evals += 2
+	}
+
 	// ---------------- (1) corpus
 	// F16 (fixed): instruction with Len < 2 inside a sublist; and as raw instruction stream via sublist framing
 	for _, in := range [][]byte{
